@@ -171,7 +171,7 @@ def check(case, rec):
                 geom = x
                 if base == 'discont' or base == 'legendre':
                     j = numpy.asarray(ismp.eval(function.jump(basis)))
-                    if ndofs and abs(j).max() < 1e-9 and case['degree'] >= 0 and not info.get('masked'):
+                    if ndofs and j.size and abs(j).max() < 1e-9 and case['degree'] >= 0 and not info.get('masked'):
                         raise Violation('continuity-overdelivered', f'{btype} basis has no jump anywhere', where='continuity:' + btype)
                 else:
                     order = 0
@@ -190,7 +190,7 @@ def check(case, rec):
                         f = basis
                         for k in range(min(order, 2) + 1):
                             j = numpy.asarray(ismp.eval(function.jump(f)))
-                            if abs(j).max() > 1e-9 * (1 + 10 ** k):
+                            if j.size and abs(j).max() > 1e-9 * (1 + 10 ** k):
                                 raise Violation('continuity', f'{btype} {kwargs} on {case["kind"]}: jump of derivative order {k} is {abs(j).max():.3e}, advertised continuity C^{order}', where=f'continuity:{btype}')
                             f = function.grad(f, geom)
                         rec.label('continuity-checked:%d' % min(order, 2))
